@@ -51,7 +51,7 @@ def extra_cases(tier, seed, shard, nshards):
                 seen.add((c["kind"], c["bind"]))
                 seen.add(("h", c["hist"]))
                 picked.append(c)
-        cs = picked[:32]
+        cs = (picked + [c for c in cs if c not in picked])[:32]
     for i, c in enumerate(cs):
         if i % nshards == shard:
             j = int(hashlib.sha1(("%d-%d" % (seed, i)).encode()).hexdigest()[:4], 16) / 65535.0
@@ -99,9 +99,9 @@ def stable_workers(srv, limit):
 def run_case(case):
     kind, bind = case["kind"], case["bind"]
     classes = ["kind:" + kind, "bind:" + bind, "hist:%d" % case["hist"]]
-    srv = renv.Server(kind=kind, workers=case["start_workers"], bind=bind, graceful=G, timeout=30,
+    srv = renv.Server(kind=kind, workers=None, bind=bind, graceful=G, timeout=30,
                       threads=2 if kind == "gthread" else None, keepalive=2,
-                      conf_lines=["raw_env = ['VERIF_MARKER=m0']"])
+                      conf_lines=["workers = %d" % case["start_workers"], "raw_env = ['VERIF_MARKER=m0']"])
     vio = []
 
     def V(clause, sig, observed=None, expected=None):
